@@ -569,6 +569,13 @@ func (w *watch) watch(fsw *fsnotify.Watcher, m *sync.Mutex, refresh func() error
 				m.Unlock()
 				return
 			}
+			if event.Op == fsnotify.Rename && w.tracked[event.Name] {
+				// A Spec directory renamed away is gone under its configured
+				// name. Stop watching the moved directory and handle it like
+				// a removed one, so that it gets watched again if recreated.
+				_ = watch.Remove(event.Name)
+				event.Op = fsnotify.Remove
+			}
 			if event.Op == fsnotify.Remove && w.tracked[event.Name] {
 				w.update(dirErrors, event.Name)
 			} else {
